@@ -730,6 +730,10 @@ type Topo struct {
 	// into Nodes); real nodes print in dictionary order of ids, so replicas
 	// routinely come before their masters.
 	Order []int
+	// PadTo, when > 0, pads the text to exactly this many bytes with lines of failed
+	// masters without slots that were never forgotten (what a long-lived cluster's
+	// output looks like); they describe nothing a proxy may use.
+	PadTo int
 }
 
 // Text renders the CLUSTER NODES output as seen by node self (may be nil).
@@ -785,6 +789,26 @@ func (t *Topo) Text(self *Node) string {
 			}
 		}
 		sb.WriteByte('\n')
+	}
+	if t.PadTo > sb.Len() {
+		line := func(i, idLen int) string {
+			id := fmt.Sprintf("%040x", 0xfa11ed0000+i)
+			for len(id) < idLen {
+				id += "0"
+			}
+			return fmt.Sprintf("%s 10.99.9.9:7000@17000 master,fail - 1426238316232 1426238316232 7 disconnected\n", id)
+		}
+		std := len(line(100000, 40))
+		rem := t.PadTo - sb.Len()
+		if rem < std {
+			sb.WriteString(strings.Repeat(" ", rem-1) + "\n") // fewer than 8 columns: skipped
+		} else {
+			k := rem / std
+			for i := 0; i < k-1; i++ {
+				sb.WriteString(line(100000+i, 40))
+			}
+			sb.WriteString(line(100000+k, 40+rem-k*std)) // the last one is stretched to fit
+		}
 	}
 	return sb.String()
 }
